@@ -316,6 +316,14 @@ Definition run_c20 (code : Z) (ps : list Z) (vs : list (list Z)) : option (list 
       | None => None
       | Some (ws, r) => Some [map fst ws; map snd ws; [fst r; snd r]; [available (p ps 1) (p ps 2)]]
       end
+  | 20007 =>  (* [be, kind, threads, per_thread]: arena at a 64-aligned address, exactly threads*per_thread bytes
+                 (kind 2: rounded up to 64 by the allocator); Some iff split_mut does not panic *)
+      let total := Z.of_nat (pn ps 2) * p ps 3 in
+      let len := if p ps 1 =? 2 then round64 total else total in
+      match split_mut 0 len (pn ps 2) (p ps 3) with
+      | None => None
+      | Some _ => Some [[1]]
+      end
   | _ => None
   end.
 
@@ -375,6 +383,7 @@ Definition oracle_c20 (code : Z) (ps : list Z) (vs outs : list (list Z)) : Z :=
                            && forallb (fun w => fst w + snd w <=? ra) ws
              | _ => false
              end)
+  | 20007 => ob (list_eqb (v outs 0) [1])
   | _ => 2
   end.
 
